@@ -5,7 +5,7 @@ CONSTANTS
   SubExtraQ = {123456, 500000, 999999}
   MaxUnitLen = 5
   UnitAlpha = {"B", "M", "b", "y", "t", "e", "s", "/", "*", "-", " ", "x"}
-  PoolN = 10
+  PoolN = 14
   SeqMax = 3
 INVARIANTS TypeOK ScaleOpInDecl ScaleDeclEqOp DecimalHandOverUnique BinaryHandOverBand ScaleFourDigits ScaleBelow OutsideIsEdge BoundaryIsThreshold AcceptNonEmpty CommonOK ClassOK
 CHECK_DEADLOCK FALSE
